@@ -30,6 +30,7 @@ def run(ctx):
     session.finish_observers(ctx, obs)
     slicegrid.run(ctx, ['inv'])
     claimprobes.run(ctx)
+    claimprobes.run_handover(ctx, ['inv'], maxlen=4)
 
 
 def search(ctx, hints):
